@@ -205,6 +205,30 @@ func c10Scenarios(seed uint64, thorough bool) []c10scn {
 			}
 		}
 	}
+	// the same 1.0.1 scenarios with handlers installed: a default handler that reads whole payloads, handlers that panic
+	// (on the first message too)
+	base := len(out)
+	for i := 0; i < base; i++ {
+		sc := out[i]
+		if sc.ver != 1 || (i%3 != 0 && !strings.HasSuffix(sc.name, ":valid")) {
+			continue
+		}
+		v := sc
+		v.name = sc.name + "+dflt"
+		v.dflt = true
+		for k := 0; k < 12; k++ {
+			v.behs = append(v.behs, vbeh{k: 1 << 20})
+		}
+		add(v)
+		v2 := sc
+		v2.name = sc.name + "+panics"
+		v2.handlers = []int{61, 63, 12}
+		v2.dflt = true
+		for k := 0; k < 12; k++ {
+			v2.behs = append(v2.behs, vbeh{k: k, panic: true})
+		}
+		add(v2)
+	}
 	// a local Shutdown in progress: the wait for the local close after CloseConnectionResponse + EOF is legitimate here
 	gr := wraw(c10frame{1, 63, 0, renPayload(0)}.bytes())
 	sd := func(name string, reply c10op) {
@@ -337,6 +361,11 @@ func (s c10scn) run() (req, obs string) {
 				if err != nil {
 					cl.res <- errClass(err)
 					return
+				}
+				if rt.IsValid() && len(data) < 1<<16 {
+					if v, ok := interface{}(rt.NewInstance()).(interface{ UnmarshalBinary([]byte) error }); ok && v != nil {
+						_ = v.UnmarshalBinary(data) // a decoder panic on a hostile reply is caught by the deferred recover
+					}
 				}
 				cl.res <- fmt.Sprintf("ok:%d:%d:%d", rt, len(data), vfnv(fnvOff, data))
 			}()
